@@ -15,10 +15,7 @@ SPEC = dict(
           "Unicode surrounding text; with/without final newline) x flag sets (predicted to succeed, or random) x v2 "
           "and legacy patterns x commit off / on (fake git); non-trivial+distinct = distinct (#files changed, "
           "max hunks per file, EOL set, engine, commit) tuples of dry runs that exit 0"),
-    assumptions=["every configured file is reached through ONE path spelling: for a file configured twice under different "
-                 "spellings (a.txt and docs/../a.txt) --dry prints two separate diffs of the same file, both against the "
-                 "current content, which no patch tool can apply as a unit",
-                 "R5 (strict unified-diff parser/applier in this module) is independent of difflib",
+    assumptions=["R5 (strict unified-diff parser/applier in this module) is independent of difflib",
                  "files use one line-ending style each (the statement's domain)",
                  "file text contains no ESC character: click.echo strips ANSI escape sequences from non-tty output, so "
                  "such a line cannot be shown verbatim by any diff printed through click"],
@@ -208,7 +205,7 @@ def run_case(ctx, case):
     else:
         proj, why = projects.gen_project(R, mods, tdy, eol_choices=("\n", "\n", "\r\n", "\r"),
                                          filler="unicode" if case["unicode"] else "plain", cfg_fmt=None,
-                                         commit_cfg=commit_cfg, aliases=False)
+                                         commit_cfg=commit_cfg)
         if proj is None:
             raise harness.Skip(why)
         if case["random_flags"]:
